@@ -7,10 +7,10 @@ package main
 //     go build -race -tags verif -o <verif>/bin/harness-race .      (CGO_ENABLED=1)
 //     GORACE="halt_on_error=0 log_path=<out>/race" harness-race c08 -c08child ...
 // The child compiles a shared set of programs whose constants cover every kind (regexps, folded
-// []int / []string slices, `in` lookup maps, vm.Call descriptors, ranges), evaluates every
-// (program, environment) pair sequentially, then lets N goroutines run all pairs M times in
-// different orders on the SAME program and environment values, compares every result with the
-// sequential one, and does the same for concurrent expr.Compile calls that share one options
+// []int / []string slices, `in` lookup maps, vm.Call descriptors, ranges), lets N goroutines run all
+// (program, environment) pairs M times in different orders on the SAME, never-run-before program
+// and environment values (a lazily filled cache is written on FIRST use), evaluates every pair
+// sequentially afterwards, compares every result with the sequential one, and does the same for concurrent expr.Compile calls that share one options
 // slice and one environment value (also while other goroutines run programs on that value).
 // Any race report, any differing result, any crash of the child is a failing input.
 // Environment functions are pure here (the logging functions of universe.go write a global).
@@ -162,7 +162,9 @@ func c08ConstKind(c interface{}) string {
 	return fmt.Sprintf("%T", c)
 }
 
-// the workload of the race-enabled child
+// the workload of the race-enabled child.  Everything happens CONCURRENTLY FIRST and sequentially
+// afterwards: a lazily filled cache (in the program, in a package-level table keyed by the
+// environment type, ...) is written on first use, so the first use must be the contended one.
 func c08Child() {
 	rng := rand.New(rand.NewSource(*seed))
 	G, M, nRandom := 12, 2, 120
@@ -184,14 +186,59 @@ func c08Child() {
 	opts["mapenv+opt"] = []expr.Option{expr.Env(menv), expr.Optimize(true)}
 	modeNames := []string{"untyped", "typed", "typed+opt", "mapenv+opt"}
 
-	// everything shared is snapshotted before the first run
+	// everything shared is snapshotted before the first use
 	envSnap := make([]string, len(envs))
 	for i, e := range envs {
 		envSnap[i] = deepSnapshot(e)
 	}
 	menvSnap := deepSnapshot(menv)
 
-	// sequential reference: programs and results
+	var mu sync.Mutex // guards the counters and cr.Mismatches (taken after a goroutine has finished a batch)
+	var runs, compiles int
+	report := func(ms []c08Mismatch, r, c int) {
+		mu.Lock()
+		runs += r
+		compiles += c
+		cr.MismatchSeen += len(ms)
+		for _, m := range ms {
+			if len(cr.Mismatches) < 20 {
+				cr.Mismatches = append(cr.Mismatches, m)
+			}
+		}
+		mu.Unlock()
+	}
+	compileText := func(src, mn string) string {
+		p, err := expr.Compile(src, opts[mn]...)
+		if err != nil {
+			return "ERR " + err.Error()
+		}
+		return cqProgram(p)
+	}
+	var wg sync.WaitGroup
+
+	// phase 0: the FIRST compilations of this process, against every environment type, happen concurrently
+	nFirst := 48
+	if nFirst > len(srcs) {
+		nFirst = len(srcs)
+	}
+	firstTexts := make([][]string, G)
+	for g := 0; g < G; g++ {
+		wg.Add(1)
+		go func(g int) {
+			defer wg.Done()
+			out := make([]string, 0, nFirst*len(modeNames))
+			for i := 0; i < nFirst; i++ {
+				for _, mn := range modeNames {
+					out = append(out, compileText(srcs[i], mn))
+				}
+			}
+			firstTexts[g] = out
+			report(nil, 0, len(out))
+		}(g)
+	}
+	wg.Wait()
+
+	// the shared programs (compiled once, sequentially; never run before phase 1)
 	var progs []c08Prog
 	for _, src := range srcs {
 		for _, mn := range modeNames {
@@ -206,9 +253,24 @@ func c08Child() {
 		}
 	}
 	cr.Programs = len(progs)
+	{
+		k := 0
+		var ms []c08Mismatch
+		for i := 0; i < nFirst; i++ {
+			for _, mn := range modeNames {
+				want := compileText(srcs[i], mn)
+				for g := 0; g < G; g++ {
+					if firstTexts[g][k] != want {
+						ms = append(ms, c08Mismatch{"compile", srcs[i], mn, -1, want, firstTexts[g][k], g})
+					}
+				}
+				k++
+			}
+		}
+		report(ms, 0, 0)
+	}
 	type pair struct{ p, e int }
 	var pairs []pair
-	var want []string
 	envOf := func(pr c08Prog, e int) interface{} {
 		if pr.MapEnv {
 			return menv
@@ -221,39 +283,68 @@ func c08Child() {
 			ne = 1
 		}
 		for e := 0; e < ne; e++ {
-			out, err := vm.Run(pr.Prog, envOf(pr, e))
-			r := c08Result(out, err)
 			pairs = append(pairs, pair{pi, e})
-			want = append(want, r)
-			if err != nil {
-				cr.ResultKinds["error"]++
-			} else {
-				cr.ResultKinds[fmt.Sprintf("%T", out)]++
-			}
 		}
 	}
 	cr.Pairs = len(pairs)
 	for i := 0; i < 6 && i < len(progs); i++ {
 		cr.Samples = append(cr.Samples, progs[(i*131+7)%len(progs)].Src)
 	}
-	var mu sync.Mutex // guards cr.Mismatches only (taken after a goroutine has finished its work)
-	report := func(ms []c08Mismatch) {
-		mu.Lock()
-		cr.MismatchSeen += len(ms)
-		for _, m := range ms {
-			if len(cr.Mismatches) < 20 {
-				cr.Mismatches = append(cr.Mismatches, m)
+	runPair := func(k int) string {
+		pr := progs[pairs[k].p]
+		out, err := vm.Run(pr.Prog, envOf(pr, pairs[k].e))
+		return c08Result(out, err)
+	}
+
+	// phase 1: N goroutines x M rounds over all (program, environment) pairs; the first run of every
+	// program is a concurrent one; results are judged afterwards
+	got := make([][]string, G*M)
+	for g := 0; g < G; g++ {
+		wg.Add(1)
+		go func(g int) {
+			defer wg.Done()
+			r := rand.New(rand.NewSource(*seed + int64(g)*7919))
+			for m := 0; m < M; m++ {
+				res := make([]string, len(pairs))
+				for _, k := range r.Perm(len(pairs)) {
+					res[k] = runPair(k)
+				}
+				got[g*M+m] = res
+				report(nil, len(pairs), 0)
+			}
+		}(g)
+	}
+	wg.Wait()
+
+	// the sequential reference
+	want := make([]string, len(pairs))
+	for k := range pairs {
+		want[k] = runPair(k)
+		if strings.HasPrefix(want[k], "ERR ") {
+			cr.ResultKinds["error"]++
+		} else {
+			cr.ResultKinds["value"]++
+		}
+	}
+	{
+		var ms []c08Mismatch
+		for gm, res := range got {
+			for k, r := range res {
+				if r != want[k] {
+					pr := progs[pairs[k].p]
+					ms = append(ms, c08Mismatch{"run", pr.Src, pr.Mode, pairs[k].e, want[k], r, gm / M})
+				}
 			}
 		}
-		mu.Unlock()
+		report(ms, 0, 0)
 	}
+
 	runAll := func(g int, order []int) (ms []c08Mismatch, n int) {
 		for _, k := range order {
-			pr := progs[pairs[k].p]
-			out, err := vm.Run(pr.Prog, envOf(pr, pairs[k].e))
 			n++
-			if got := c08Result(out, err); got != want[k] {
-				ms = append(ms, c08Mismatch{"run", pr.Src, pr.Mode, pairs[k].e, want[k], got, g})
+			if r := runPair(k); r != want[k] {
+				pr := progs[pairs[k].p]
+				ms = append(ms, c08Mismatch{"run", pr.Src, pr.Mode, pairs[k].e, want[k], r, g})
 			}
 		}
 		return
@@ -261,52 +352,21 @@ func c08Child() {
 	compileAll := func(g int, order []int) (ms []c08Mismatch, n int) {
 		for _, k := range order {
 			pr := progs[k]
-			p, err := expr.Compile(pr.Src, opts[pr.Mode]...)
 			n++
-			got := "ERR"
-			if err == nil {
-				got = cqProgram(p)
-			}
-			if got != pr.Text {
+			if got := compileText(pr.Src, pr.Mode); got != pr.Text {
 				ms = append(ms, c08Mismatch{"compile", pr.Src, pr.Mode, -1, pr.Text, got, g})
 			}
 		}
 		return
 	}
-	perm := func(r *rand.Rand, n int) []int { return r.Perm(n) }
-	var runs, compiles int64
-	var cmu sync.Mutex
-	count := func(r, c int) {
-		cmu.Lock()
-		runs += int64(r)
-		compiles += int64(c)
-		cmu.Unlock()
-	}
-
-	// phase 1: N goroutines x M rounds over all (program, environment) pairs
-	var wg sync.WaitGroup
-	for g := 0; g < G; g++ {
-		wg.Add(1)
-		go func(g int) {
-			defer wg.Done()
-			r := rand.New(rand.NewSource(*seed + int64(g)*7919))
-			for m := 0; m < M; m++ {
-				ms, n := runAll(g, perm(r, len(pairs)))
-				count(n, 0)
-				report(ms)
-			}
-		}(g)
-	}
-	wg.Wait()
 	// phase 2: concurrent Compile calls sharing options and the environment value
 	for g := 0; g < G; g++ {
 		wg.Add(1)
 		go func(g int) {
 			defer wg.Done()
 			r := rand.New(rand.NewSource(*seed + int64(g)*104729))
-			ms, n := compileAll(g, perm(r, len(progs)))
-			count(0, n)
-			report(ms)
+			ms, n := compileAll(g, r.Perm(len(progs)))
+			report(ms, 0, n)
 		}(g)
 	}
 	wg.Wait()
@@ -317,18 +377,16 @@ func c08Child() {
 			defer wg.Done()
 			r := rand.New(rand.NewSource(*seed + int64(g)*15485863))
 			if g%2 == 0 {
-				ms, n := runAll(g, perm(r, len(pairs)))
-				count(n, 0)
-				report(ms)
+				ms, n := runAll(g, r.Perm(len(pairs)))
+				report(ms, n, 0)
 			} else {
-				ms, n := compileAll(g, perm(r, len(progs)))
-				count(0, n)
-				report(ms)
+				ms, n := compileAll(g, r.Perm(len(progs)))
+				report(ms, 0, n)
 			}
 		}(g)
 	}
 	wg.Wait()
-	cr.Runs, cr.Compiles = int(runs), int(compiles)
+	cr.Runs, cr.Compiles = runs, compiles
 
 	// nothing shared was modified
 	for i, e := range envs {
@@ -392,6 +450,16 @@ func runC08() {
 	if *c08child {
 		c08Child()
 		return
+	}
+	if *replay != "" {
+		// a C08 failure is replayed by running the same workload again (seed + tier)
+		var in struct {
+			Seed int64  `json:"seed"`
+			Tier string `json:"tier"`
+		}
+		if err := json.Unmarshal([]byte(*replay), &in); err == nil && in.Tier != "" {
+			*seed, *tier = in.Seed, in.Tier
+		}
 	}
 	rep := newReport("C08")
 	t0 := time.Now()
@@ -460,7 +528,8 @@ func runC08() {
 		case "compile":
 			what = "a concurrent expr.Compile produced a program that differs from the sequential compilation"
 		case "env-modified":
-			what = "a shared environment value was modified by the concurrent runs"
+			what = "a shared environment value was modified by the runs"
+			m.Got, m.Want = m.Want, "environment unchanged"
 		case "program-modified":
 			what = "a shared program was modified by the concurrent runs"
 		}
@@ -489,6 +558,12 @@ func runC08() {
 	rep.Extra["race_log_files"] = len(files)
 	rep.Rule = fmt.Sprintf("race-enabled build of the harness (go build -race, GORACE halt_on_error=0): %d goroutines x %d rounds run every (program, environment) pair in a goroutine-specific random order on SHARED *vm.Program and environment values (struct environments incl. maps, slices, pointers; one map[string]interface{} environment), then %d goroutines compile every source concurrently with ONE shared options slice and environment value, then half run / half compile at the same time; programs = fixed sources covering every constant kind (regexp, folded []int/[]string, in-lookup maps, vm.Call, ranges) + type-directed random expressions, each untyped / typed / typed+optimized / map-environment; every result (value or error text) and every compiled program compared with the sequential one; environments and programs snapshotted before/after; distinct_nontrivial = distinct shared programs + distinct (program, environment) pairs", cr.Goroutines, cr.Rounds, cr.Goroutines)
 	rep.write()
+	if *replay != "" {
+		for _, f := range rep.Failures {
+			fmt.Printf("%s: %s\n  input: %v\n  got: %s\n", f.Key, f.What, f.Input, head(f.Got, 3000))
+		}
+		fmt.Printf("replay: %d failure(s)\n", len(rep.Failures))
+	}
 }
 
 func tail(s string, n int) string {
